@@ -23,10 +23,12 @@ THEOREMS = [
     "c07_error_never_returns",
     "c07_error_class_total",
     "c07_bool_helpers",
+    "c07_client_error_is_own",
 ]
 RULE = (
     "classify: every integer in -33100..-31900 and -200..200 (exhaustive) plus seeded 64-bit values, real "
     "is_retryable_error/_process_response vs the regenerated Lean function; error-path: timed histories whose first "
+    "client-errors: the C01 client-calls runs (real MCPClient, reactive peer) with error-heavy answers over every documented and unnamed code vs ClientApi.clientSeq; "
     "matching message is an error, through send_message and every typed helper; non-trivial = distinct (code, shape, helper)"
 )
 TRUSTED = ["Gen/Errors.lean regenerated from types/errors.py (sets, named codes, body of is_retryable_error)"]
@@ -185,6 +187,45 @@ class ErrorHelpers(Suite):
         return True
 
 
+def _client_errors():
+    """the C01 client-calls suite with error-heavy answers over every documented code and unnamed ones"""
+    from .c01 import ClientCalls
+
+    class ClientErrors(ClientCalls):
+        name = "client-errors"
+        RKINDS = ["error", "error", "error", "ok", "ok-dup"]
+        CODES = [-32700, -32600, -32601, -32602, -32603, -32000, -32001, -32002, -32003, -32004, -32005, -32006, -32007, -32008,
+                 0, 1, -1, 429, 500, -32099, -32768, 2 ** 31, -(2 ** 40)]
+        N = (600, 20000)
+
+        def oracle(self, case, o):
+            v = super().oracle(case, o)
+            if v is not None:
+                return v
+            # a call whose own request got an error as the first message bearing its id raises one of the
+            # two documented classes with the server's code
+            if o.get("harness_errors"):
+                return None
+            for i, (spec, r) in enumerate(zip(case["calls"], o["calls"])):
+                own = [w for w in r["writes"] if w["id"] is not None and w["method"] and w["method"] != "initialize"]
+                if not own:
+                    continue
+                sent = own[0]["id"]
+                first = next((ev for _, ev in o["stream"] if ev["k"] in ("resp", "err") and ev["id"] == ({"s": sent} if isinstance(sent, str) else {"i": sent})), None)
+                if first is not None and first["k"] == "err":
+                    arrived = next(t for t, ev in o["stream"] if ev is first)
+                    if arrived - own[0]["tick"] >= self.dflt()[spec["op"]]:
+                        continue
+                    code = first.get("code")
+                    if r["outcome"] != "raised":
+                        return ("client/error-response-not-raised", f"call {i} ({spec['op']}): the first message bearing its id is the error {first}, outcome {r['outcome']}", {"outcome": "raised", "code": code})
+                    if r["code"] != code or r["retryable"] != (code not in DOCUMENTED_PERMANENT):
+                        return ("client/error-misclassified", f"call {i} ({spec['op']}): error code {code} surfaced as code {r['code']} retryable={r['retryable']}", {"code": code, "retryable": code not in DOCUMENTED_PERMANENT})
+            return None
+
+    return ClientErrors()
+
+
 def suites():
     from . import c07_errpath
-    return [Classify()] + c07_errpath.suites() + [ErrorHelpers()]
+    return [Classify()] + c07_errpath.suites() + [ErrorHelpers(), _client_errors()]
